@@ -142,7 +142,8 @@ def extra_add(rng, variants=VARIANTS, arches=None, invalid=0.25):
     v = pick(rng, variants)
     a = pick(rng, arches)
     op = {"op": "add", "variant": v, "arch": a,
-          "path": pick(rng, ["%s/%s/os/GPL" % (v, a), "%s/%s/os2/EULA" % (v, a), "%s/%s/osx" % (v, a), "README", "%s/%s/os/a/b/c" % (v, a)]),
+          "path": pick(rng, ["%s/%s/os/GPL" % (v, a), "%s/%s/os2/EULA" % (v, a), "%s/%s/osx" % (v, a), "README", "%s/%s/os/a/b/c" % (v, a),
+                             "compose/%s/%s/os/GPL" % (v, a), "%s/%s/os/%s/%s/os/LICENSE" % (v, a, v, a)]),
           "size": rng.choice([0, 1, 18092, 2 ** 33]),
           "checksums": dict((t, hexstr(rng, 8)) for t in subset(rng, pools.CHECKSUM_TYPES, 0, 3))}
     if rng.random() < invalid:
@@ -164,7 +165,8 @@ def dump_for_tree_op(rng, variants=VARIANTS, arches=None):
     arches = arches or pools.ARCHES[:3]
     v = pick(rng, variants)
     a = pick(rng, arches)
-    base = pick(rng, ["%s/%s/os" % (v, a), "%s/%s/os/" % (v, a), "%s/%s" % (v, a), "%s/%s/o" % (v, a), "elsewhere", "", "%s/%s/os//" % (v, a)])
+    base = pick(rng, ["%s/%s/os" % (v, a), "%s/%s/os/" % (v, a), "%s/%s" % (v, a), "%s/%s/o" % (v, a), "elsewhere", "", "%s/%s/os//" % (v, a),
+                      "os", a, "%s/os" % a, "compose", "compose/%s" % v, "GPL", "/%s/%s/os" % (v, a)])
     return {"op": "dump_for_tree", "variant": v, "arch": a, "basepath": base}
 
 
